@@ -755,8 +755,23 @@ impl<T> AsRef<Cont<T>> for Cont<T> {
 // ---------------------------------------------------------------------------------------
 // nodes
 
-pub type Unit = OwnedLockCollection<Cont<Leaf>>;
+pub type CL = Cont<Leaf>;
+pub type Unit = OwnedLockCollection<CL>;
 pub type CN = Cont<Node>;
+
+/// drop-counting tag (C16): counts how often the value it is attached to is dropped
+#[derive(Debug)]
+pub struct Tag(pub usize);
+impl Drop for Tag {
+    fn drop(&mut self) {
+        if let Some(s) = crate::sched::cur() {
+            let mut g = s.lock();
+            if self.0 < g.tag_drops.len() {
+                g.tag_drops[self.0] += 1;
+            }
+        }
+    }
+}
 
 /// a `RefLockCollection` together with the heap cell its `&'static` data points to
 pub struct RefHolder<L: 'static> {
@@ -818,6 +833,16 @@ pub enum Node {
     PRetry(Box<Poisonable<RetryingLockCollection<CN>>>),
     /// a reference to another node (exercises the library's `&T` impl)
     Shared(&'static Node),
+    /// collections that own their leaves (C16 construction / destruction paths)
+    OwnBoxed(BoxedLockCollection<CL>),
+    OwnRetry(Box<RetryingLockCollection<CL>>),
+    OwnRef(RefHolder<CL>),
+    OwnOwned(Box<Unit>),
+    POwnBoxed(Box<Poisonable<BoxedLockCollection<CL>>>),
+    POwnRetry(Box<Poisonable<RetryingLockCollection<CL>>>),
+    POwnOwned(Box<Poisonable<Unit>>),
+    /// a member with a drop-counting tag attached
+    Tagged(Box<Node>, Tag),
 }
 
 pub enum NodeAcc<'g, F: Fam> {
@@ -825,6 +850,7 @@ pub enum NodeAcc<'g, F: Fam> {
     Unit(ContAcc<LeafAcc<'g, F>>),
     Coll(Box<ContAcc<NodeAcc<'g, F>>>),
     PColl(Box<F::P<'g, ContAcc<NodeAcc<'g, F>>>>),
+    PUnit(Box<F::P<'g, ContAcc<LeafAcc<'g, F>>>>),
 }
 
 unsafe impl Lockable for Node {
@@ -847,6 +873,14 @@ unsafe impl Lockable for Node {
             Node::PBoxed(c) => c.get_ptrs(ptrs),
             Node::PRetry(c) => c.get_ptrs(ptrs),
             Node::Shared(n) => n.get_ptrs(ptrs),
+            Node::OwnBoxed(c) => c.get_ptrs(ptrs),
+            Node::OwnRetry(c) => c.get_ptrs(ptrs),
+            Node::OwnRef(c) => c.get().get_ptrs(ptrs),
+            Node::OwnOwned(c) => c.get_ptrs(ptrs),
+            Node::POwnBoxed(c) => c.get_ptrs(ptrs),
+            Node::POwnRetry(c) => c.get_ptrs(ptrs),
+            Node::POwnOwned(c) => c.get_ptrs(ptrs),
+            Node::Tagged(n, _) => n.get_ptrs(ptrs),
         }
     }
     unsafe fn guard(&self) -> Self::Guard<'_> {
@@ -859,6 +893,14 @@ unsafe impl Lockable for Node {
             Node::PBoxed(c) => NodeAcc::PColl(Box::new(c.guard())),
             Node::PRetry(c) => NodeAcc::PColl(Box::new(c.guard())),
             Node::Shared(n) => n.guard(),
+            Node::OwnBoxed(c) => NodeAcc::Unit(c.guard()),
+            Node::OwnRetry(c) => NodeAcc::Unit(c.guard()),
+            Node::OwnRef(c) => NodeAcc::Unit(c.get().guard()),
+            Node::OwnOwned(c) => NodeAcc::Unit(c.guard()),
+            Node::POwnBoxed(c) => NodeAcc::PUnit(Box::new(c.guard())),
+            Node::POwnRetry(c) => NodeAcc::PUnit(Box::new(c.guard())),
+            Node::POwnOwned(c) => NodeAcc::PUnit(Box::new(c.guard())),
+            Node::Tagged(n, _) => n.guard(),
         }
     }
     unsafe fn data_mut(&self) -> Self::DataMut<'_> {
@@ -871,6 +913,14 @@ unsafe impl Lockable for Node {
             Node::PBoxed(c) => NodeAcc::PColl(Box::new(c.data_mut())),
             Node::PRetry(c) => NodeAcc::PColl(Box::new(c.data_mut())),
             Node::Shared(n) => n.data_mut(),
+            Node::OwnBoxed(c) => NodeAcc::Unit(c.data_mut()),
+            Node::OwnRetry(c) => NodeAcc::Unit(c.data_mut()),
+            Node::OwnRef(c) => NodeAcc::Unit(c.get().data_mut()),
+            Node::OwnOwned(c) => NodeAcc::Unit(c.data_mut()),
+            Node::POwnBoxed(c) => NodeAcc::PUnit(Box::new(c.data_mut())),
+            Node::POwnRetry(c) => NodeAcc::PUnit(Box::new(c.data_mut())),
+            Node::POwnOwned(c) => NodeAcc::PUnit(Box::new(c.data_mut())),
+            Node::Tagged(n, _) => n.data_mut(),
         }
     }
 }
@@ -895,6 +945,14 @@ unsafe impl Sharable for Node {
             Node::PBoxed(c) => NodeAcc::PColl(Box::new(c.read_guard())),
             Node::PRetry(c) => NodeAcc::PColl(Box::new(c.read_guard())),
             Node::Shared(n) => n.read_guard(),
+            Node::OwnBoxed(c) => NodeAcc::Unit(c.read_guard()),
+            Node::OwnRetry(c) => NodeAcc::Unit(c.read_guard()),
+            Node::OwnRef(c) => NodeAcc::Unit(c.get().read_guard()),
+            Node::OwnOwned(c) => NodeAcc::Unit(c.read_guard()),
+            Node::POwnBoxed(c) => NodeAcc::PUnit(Box::new(c.read_guard())),
+            Node::POwnRetry(c) => NodeAcc::PUnit(Box::new(c.read_guard())),
+            Node::POwnOwned(c) => NodeAcc::PUnit(Box::new(c.read_guard())),
+            Node::Tagged(n, _) => n.read_guard(),
         }
     }
     unsafe fn data_ref(&self) -> Self::DataRef<'_> {
@@ -907,6 +965,14 @@ unsafe impl Sharable for Node {
             Node::PBoxed(c) => NodeAcc::PColl(Box::new(c.data_ref())),
             Node::PRetry(c) => NodeAcc::PColl(Box::new(c.data_ref())),
             Node::Shared(n) => n.data_ref(),
+            Node::OwnBoxed(c) => NodeAcc::Unit(c.data_ref()),
+            Node::OwnRetry(c) => NodeAcc::Unit(c.data_ref()),
+            Node::OwnRef(c) => NodeAcc::Unit(c.get().data_ref()),
+            Node::OwnOwned(c) => NodeAcc::Unit(c.data_ref()),
+            Node::POwnBoxed(c) => NodeAcc::PUnit(Box::new(c.data_ref())),
+            Node::POwnRetry(c) => NodeAcc::PUnit(Box::new(c.data_ref())),
+            Node::POwnOwned(c) => NodeAcc::PUnit(Box::new(c.data_ref())),
+            Node::Tagged(n, _) => n.data_ref(),
         }
     }
 }
@@ -929,6 +995,12 @@ impl<'g, F: Fam> NodeAcc<'g, F> {
                 let (e, inner) = F::p_open(&mut **p);
                 layers.push(e);
                 inner.get_mut(path[0] as usize).visit(&path[1..], layers)
+            }
+            NodeAcc::PUnit(p) => {
+                assert!(path.len() == 1, "happysim: unit path must have one index");
+                let (e, inner) = F::p_open(&mut **p);
+                layers.push(e);
+                inner.get_mut(path[0] as usize).open(layers)
             }
         }
     }
